@@ -369,7 +369,20 @@ Config sanitize_config(Config config) {
 }
 
 bool validate_shards(const protocol::Manifest& manifest) {
-    return manifest.threshold > 0 && manifest.shards.size() >= manifest.threshold;
+    if (manifest.threshold == 0 || manifest.shards.size() < manifest.threshold) {
+        return false;
+    }
+    // Reconstruction uses the first `threshold` shards and throws when two of them carry the same index: a manifest
+    // like that can never be opened, so it is refused here, before any handler stores or forwards it.
+    std::array<bool, 256> seen{};
+    for (std::size_t position = 0; position < manifest.threshold; ++position) {
+        const auto index = manifest.shards[position].index;
+        if (seen[index]) {
+            return false;
+        }
+        seen[index] = true;
+    }
+    return true;
 }
 
 std::optional<std::pair<std::string, std::uint16_t>> parse_endpoint(const std::string& address) {
